@@ -637,20 +637,33 @@ func (u *Unmarshaler) processFieldPrimitiveWithJSONNumber(fieldType reflect.Type
 
 		value.SetInt(iValue)
 	case reflect.Uint, reflect.Uint8, reflect.Uint16, reflect.Uint32, reflect.Uint64:
-		iValue, err := v.Int64()
+		// 无符号字段按无符号解析：经 Int64 中转会把 [2^63, 2^64) 内的合法 uint64 值拒之门外
+		// （字符串模式的 convertType 用的就是 ParseUint，二者应一致）。
+		text := strings.TrimPrefix(v.String(), "+")
+		if strings.HasPrefix(text, "-") {
+			// 负数（-0 除外）一律不是合法的无符号值
+			iValue, err := v.Int64()
+			if err != nil {
+				return err
+			}
+
+			if iValue < 0 {
+				return fmt.Errorf("解编组 %q 使用了错误的值 %q", fullName, text)
+			}
+
+			text = "0"
+		}
+
+		uValue, err := strconv.ParseUint(text, 10, 64)
 		if err != nil {
 			return err
 		}
 
-		if iValue < 0 {
-			return fmt.Errorf("解编组 %q 使用了错误的值 %q", fullName, v.String())
-		}
-
-		if value.OverflowUint(uint64(iValue)) {
+		if value.OverflowUint(uValue) {
 			return fmt.Errorf("解编组 %q 的值 %q 超出类型范围", fullName, v.String())
 		}
 
-		value.SetUint(uint64(iValue))
+		value.SetUint(uValue)
 	case reflect.Float32, reflect.Float64:
 		fValue, err := v.Float64()
 		if err != nil {
